@@ -440,7 +440,7 @@ def App.append (h : Head) (a : App) (key : String) (x : Sample) (invalid : Bool)
 /-- Which `remoteWriteAppender` /repo has: `false` = the code as found (finding C41-F4: the embedded head
     appender's `AppendSTZeroSample / AppendHistogramSTZeroSample` are reached without the `maxTime` bound),
     `true` = fixes/C41-F4.patch applied (the wrapper rejects `t > maxTime ∨ st > maxTime` like `Append`). -/
-def repoFixedFutureST : Bool := false
+def repoFixedFutureST : Bool := true
 
 /-- `AppendSTZeroSample / AppendHistogramSTZeroSample`: every error is swallowed by the handler; the only
     effect is the synthetic zero sample `z` at `st` when it is appendable in order. -/
